@@ -1,6 +1,7 @@
 (* Program DSL of the C14 correspondence check, its interpreter over the model
    (`run`) and the wire codec (nested integer lists).  Definitions only.
 
+   request  ::= ((b c d h i j) program)            repair switches (0 / 1), then the program
    program  ::= (0 cls dom cod boxes offs)          diagram literal (class constructor)
               | (1 cls dom cod ((dom cod boxes offs) ...))   formal sum literal
               | (2 dom cod (expr ...))              Tensor literal
@@ -38,7 +39,7 @@ Inductive value :=
 | VSyms (l : list var)
 | VUnit.
 
-Fixpoint run (p : prog) : xres value :=
+Fixpoint run (fx : fixes) (p : prog) : xres value :=
   match p with
   | PDiag cls dom cod bs offs => dox d <- mk dom cod bs offs; XOk (VD cls d)
   | PSum cls dom cod ts =>
@@ -47,35 +48,35 @@ Fixpoint run (p : prog) : xres value :=
       if sum_ok s then XOk (VS cls s) else XErr XAxiom
   | PTens t => XOk (VT t)
   | PSubs q f =>
-      dox v <- run q;
+      dox v <- run fx q;
       match v with
-      | VD cls d => dox d' <- dsubs cls f d; XOk (VD cls d')
-      | VS cls s => dox s' <- sum_subs cls f s; XOk (VS cls s')
-      | VT t => dox t' <- tensor_subs f t; XOk (VT t')
+      | VD cls d => dox d' <- dsubs fx cls f d; XOk (VD cls d')
+      | VS cls s => dox s' <- sum_subs fx cls f s; XOk (VS cls s')
+      | VT t => dox t' <- tensor_subs fx f t; XOk (VT t')
       | _ => XErr XBad
       end
   | PLambdify q syms vals =>
-      dox v <- run q;
+      dox v <- run fx q;
       match v with
-      | VD cls d => dox d' <- dlambdify cls syms vals d; XOk (VD cls d')
-      | VS cls s => dox s' <- sum_lambdify cls syms vals s; XOk (VS cls s')
+      | VD cls d => dox d' <- dlambdify fx cls syms vals d; XOk (VD cls d')
+      | VS cls s => dox s' <- sum_lambdify fx cls syms vals s; XOk (VS cls s')
       | VT t => dox t' <- tensor_lambdify syms vals t; XOk (VT t')
       | _ => XErr XBad
       end
   | PFree q =>
-      dox v <- run q;
+      dox v <- run fx q;
       match v with
       | VD _ d => XOk (VSyms (dfree d))
-      | VS _ s => XOk (VSyms (sum_free s))
+      | VS _ s => XOk (VSyms (sum_free fx s))
       | _ => XErr XBad
       end
   | PEvalStatus q =>
-      dox v <- run q;
+      dox v <- run fx q;
       match v with
       | VD _ d => dox _ <- deval_status d; XOk VUnit
       | _ => XErr XBad
       end
-  | PCQSubs f t => dox t' <- cqmap_subs f t; XOk (VT t')
+  | PCQSubs f t => dox t' <- cqmap_subs fx f t; XOk (VT t')
   end.
 
 (* ------------------------------------------------------------------ decoding *)
@@ -179,8 +180,21 @@ Definition enc_outcome (r : xres value) : sexp :=
   | XErr e => L [I 1; I (xerr_code e)]
   end.
 
+Definition dec_fixes (s : sexp) : res fixes :=
+  match s with
+  | L [b; c; d; h; i; j] =>
+      do b' <- sx_bool b; do c' <- sx_bool c; do d' <- sx_bool d;
+      do h' <- sx_bool h; do i' <- sx_bool i; do j' <- sx_bool j;
+      Ok (FX b' c' d' h' i' j')
+  | _ => Err BadProgram
+  end.
+
 Definition run_sexp (s : sexp) : sexp :=
-  match dec_prog 50 s with
-  | Ok p => enc_outcome (run p)
-  | Err _ => L [I 1; I 8]
+  match s with
+  | L [sw; p] =>
+      match dec_fixes sw, dec_prog 50 p with
+      | Ok fx, Ok p' => enc_outcome (run fx p')
+      | _, _ => L [I 1; I 8]
+      end
+  | _ => L [I 1; I 8]
   end.
